@@ -134,7 +134,8 @@ def drive(ctx: Ctx, strategy, body: Callable[[Any], None], total: int, chunk: in
 			if ctx.out_of_time() and cases_run[0] >= floor:
 				raise _Stop()
 			cases_run[0] += 1
-			_with_case_watchdog(ctx, body, x)
+			if not _with_case_watchdog(ctx, body, x):
+				raise _Stop()  # the interrupted case may have left shared state (apps, cache files) half-written: this shard ends here
 
 		try:
 			test()
@@ -148,7 +149,7 @@ class _CaseTimeout(BaseException):
 	pass
 
 
-def _with_case_watchdog(ctx: Ctx, body: Callable[[Any], None], x: Any) -> None:
+def _with_case_watchdog(ctx: Ctx, body: Callable[[Any], None], x: Any) -> bool:
 	"""Runs body(x) under a generous per-case alarm (checks with their own, tighter watchdog nest inside it). A case that does not finish is
 	counted as inconclusive (never a verdict) and kept for diagnosis in the evidence, and the shard goes on."""
 	import signal
@@ -161,11 +162,13 @@ def _with_case_watchdog(ctx: Ctx, body: Callable[[Any], None], x: Any) -> None:
 		old = signal.signal(signal.SIGALRM, on_alarm)
 	except ValueError:  # not in the main thread
 		body(x)
-		return
+		return True
 	previous = signal.setitimer(signal.ITIMER_REAL, limit)
+	finished = True
 	try:
 		body(x)
 	except _CaseTimeout:
+		finished = False
 		ctx.timeouts += 1
 		ctx.discards['inconclusive:case-timeout'] += 1
 		kept = ctx.extra.setdefault('timed_out_cases', [])
@@ -176,6 +179,7 @@ def _with_case_watchdog(ctx: Ctx, body: Callable[[Any], None], x: Any) -> None:
 		signal.signal(signal.SIGALRM, old)
 		if previous[0] > 0:
 			signal.setitimer(signal.ITIMER_REAL, previous[0])
+	return finished
 
 
 def _drive_atheris(ctx: Ctx, strategy, body: Callable[[Any], None]) -> None:
